@@ -20,11 +20,15 @@ def run(tier):
     jobs = []
     base = dict(unwind=120, timeout_s=600 if tier == "quick" else 3000, summarise=SUM, max_witnesses=1, witness_every=1000,
                 panic_is_violation=True)
-    sizes = [(2, 1), (3, 2), (3, 3)] if tier == "quick" else [(2, 1), (2, 2), (3, 2), (3, 3), (4, 3), (4, 4)]
+    sizes = [(2, 1), (3, 2), (3, 3), (4, 3)] if tier == "quick" else [(2, 1), (2, 2), (3, 2), (3, 3), (4, 3), (4, 4), (5, 4)]
     for n, e in sizes:
         st = structures(n, e, tier)
+        if tier == "quick" and n == 4:
+            st = st[::39]  # a spread sample of the four-node structures
         if tier != "quick" and n == 4:
             st = st[::37]
+        if n == 5:
+            st = st[::20011]
         for s in st:
             for perm in range(math.factorial(n - 1)):
                 if tier == "quick" and perm not in (0, math.factorial(n - 1) - 1):
